@@ -1,6 +1,7 @@
 package main
 
 import (
+	"strings"
 	"fmt"
 	"reflect"
 	"regexp"
@@ -636,7 +637,7 @@ func (g *decGen) httpFilter() *v3httppb.HttpFilter {
 			lrl.TokenBucket = &typedv3.TokenBucket{MaxTokens: uint32(1 + g.r.intn(1000)), TokensPerFill: g.optU32(20)}
 		}
 		g.hit("hf.ratelimit")
-		return &v3httppb.HttpFilter{Name: "rl", ConfigType: &v3httppb.HttpFilter_TypedConfig{TypedConfig: mustAny(lrl)}}
+		return &v3httppb.HttpFilter{Name: "rl", ConfigType: &v3httppb.HttpFilter_TypedConfig{TypedConfig: g.maybeCorrupt(mustAny(lrl), 4)}}
 	default:
 		fields := map[string]*structpb.Value{}
 		if !g.r.chance(25) {
@@ -652,7 +653,7 @@ func (g *decGen) httpFilter() *v3httppb.HttpFilter {
 		ts := &udpatypev1.TypedStruct{TypeUrl: "type.googleapis.com/envoy.extensions.filters.http.local_ratelimit.v3.LocalRateLimit",
 			Value: &structpb.Struct{Fields: fields}}
 		g.hit("hf.typedstruct")
-		return &v3httppb.HttpFilter{Name: "ts", ConfigType: &v3httppb.HttpFilter_TypedConfig{TypedConfig: mustAny(ts)}}
+		return &v3httppb.HttpFilter{Name: "ts", ConfigType: &v3httppb.HttpFilter_TypedConfig{TypedConfig: g.maybeCorrupt(mustAny(ts), 4)}}
 	}
 }
 
@@ -800,8 +801,35 @@ func (g *decGen) maybeCorrupt(a *anypb.Any, p int) *anypb.Any {
 	if !g.r.chance(p) {
 		return a
 	}
+	if g.r.chance(35) {
+		// the bytes are fine, the type URL of the nested Any is not: such a filter is not one the client understands (it is
+		// skipped, like a router or tcp_proxy filter), whatever the URL looks like
+		g.hit("corrupt.nestedUrl")
+		return &anypb.Any{TypeUrl: oddURL(g.r, a.TypeUrl), Value: a.Value}
+	}
 	g.hit("corrupt.nested")
 	return &anypb.Any{TypeUrl: a.TypeUrl, Value: mutateBytes(g.r, a.Value)}
+}
+
+// oddURL: a type URL that is none of the known ones: empty, without authority, authority only, the separator mangled,
+// another authority in front of the right name.
+func oddURL(r *rng, url string) string {
+	name := url
+	if i := strings.LastIndexByte(url, '/'); i >= 0 {
+		name = url[i+1:]
+	}
+	switch r.intn(5) {
+	case 0:
+		return ""
+	case 1:
+		return name
+	case 2:
+		return "type.googleapis.com"
+	case 3:
+		return strings.ReplaceAll(url, "/", ".")
+	default:
+		return "example.org/x/" + name
+	}
 }
 
 // mutateBytes: truncation, bit flips, garbage
